@@ -267,9 +267,81 @@ package segment
 //@ func (*Writer).initEmpty
 //@   props C01 C02 C09
 //@   requires w.info.BaseIndex >= 1 && w.info.BaseIndex <= 0x7fffffff00000000 && w.wf != nil
-//@   assigns w.writer.writeOffset, w.writer.commitBuf, w.writer.crc, w.offsets, w.writer.commitBuf[0:cap(w.writer.commitBuf)]
+//@   assigns w.writer.writeOffset, w.writer.commitBuf, w.writer.crc, w.writer.indexStart, w.offsets, w.writer.commitBuf[0:cap(w.writer.commitBuf)]
 //@   ensures result == nil
-//@   ensures[C09.init-header] len(w.writer.commitBuf) == 32 && w.writer.writeOffset == 0 && len(av(w.offsets)) == 0
+//@   ensures[C09.init-header] len(w.writer.commitBuf) == 32 && w.writer.writeOffset == 0 && len(av(w.offsets)) == 0 && w.writer.indexStart == 0
 //@      && LE32(w.writer.commitBuf, 0) == 0x58eb6b0d && w.writer.commitBuf[4] == 0 && w.writer.commitBuf[5] == 0 && w.writer.commitBuf[6] == 0 && w.writer.commitBuf[7] == 0
 //@      && LE64(w.writer.commitBuf, 8) == w.info.BaseIndex && LE64(w.writer.commitBuf, 16) == w.info.ID && LE64(w.writer.commitBuf, 24) == w.info.Codec
 //@   ensures[C09.init-crc] w.writer.crc == crc(0, w.writer.commitBuf, 0, 32)
+
+// ---------------------------------------------------------------------------
+// Recovery scan (readThroughSegment) and recovery decision (recoverTail)
+// ---------------------------------------------------------------------------
+
+//@ -- Function-type contract of the scan callback. g_scanLast is the ghost
+//@ -- offset of the previously delivered frame (24 before the first one),
+//@ -- g_scanSize the ghost size of the file being scanned.
+//@ func frameCallback(info, fh, offset)
+//@   requires g_scanLast >= 24 && g_scanLast % 8 == 0
+//@   requires offset >= 32 && offset % 8 == 0 && offset > g_scanLast && offset <= g_scanSize && offset + 8 <= g_scanSize && g_scanSize < 0x10000000000
+//@   requires fh.typ == FrameEntry || fh.typ == FrameIndex || fh.typ == FrameCommit
+//@   ghostset g_scanLast = offset
+
+//@ func readThroughSegment
+//@   props C02 C03 C11
+//@   callback fn segment.frameCallback
+//@   ghostinit g_scanLast = 24
+//@   ghostinit g_scanSize = int64(r.size)
+//@   requires r != nil && fn != nil
+//@   assigns g_scanLast, g_scanSize
+//@   ensures g_scanSize == int64(r.size) && g_scanLast >= 24 && g_scanLast % 8 == 0 && (g_scanLast > 24 ==> g_scanLast + 8 <= g_scanSize)
+//@   ensures[C11.scan-header] result1 == nil ==> result0 != nil
+//@   loop 1 invariant offset >= 32 && offset <= int64(r.size) + 0x100000010 && offset % 8 == 0 && g_scanLast < offset && g_scanLast >= 24 && g_scanLast % 8 == 0
+//@   loop 1 invariant g_scanSize == int64(r.size) && (g_scanLast > 24 ==> g_scanLast + 8 <= g_scanSize) && readInfo != nil
+//@   loop 1 decreases[C11.scan-terminates] int64(r.size) - offset
+
+//@ -- Invariant of the recovery callback over its captured variables: the
+//@ -- last two commit frames seen so far, the entry offsets seen so far and the
+//@ -- index-frame position, all strictly behind the scan cursor.
+//@ predicate RecInv(offsets, prevCommit, finalCommit, w) =
+//@      w != nil && 0 <= len(offsets) && 8*len(offsets) <= g_scanLast && g_scanLast <= 0xffffffff
+//@   && (prevCommit != nil ==> finalCommit != nil)
+//@   && (finalCommit != nil ==> finalCommit.offset >= 32 && finalCommit.offset % 8 == 0 && finalCommit.offset <= g_scanLast
+//@          && 0 <= finalCommit.offsetsLen && finalCommit.offsetsLen <= len(offsets) && finalCommit.fh.typ == FrameCommit
+//@          && 0 <= finalCommit.crcStart && finalCommit.crcStart <= finalCommit.offset)
+//@   && (finalCommit != nil && prevCommit == nil ==> finalCommit.crcStart == 0)
+//@   && (finalCommit != nil && prevCommit != nil ==> finalCommit.crcStart == prevCommit.offset + 8 && prevCommit.offset >= 32 && prevCommit.offset % 8 == 0
+//@          && 0 <= prevCommit.offsetsLen && prevCommit.offsetsLen <= finalCommit.offsetsLen && prevCommit.fh.typ == FrameCommit)
+//@   && (w.writer.indexStart == 0 || (w.writer.indexStart >= 40 && w.writer.indexStart <= uint64(g_scanLast) + 8))
+
+//@ func (*Writer).recoverTail$1
+//@   props C02 C03 C11
+//@   implements segment.frameCallback
+//@   requires g_scanSize <= 0xffffffff
+//@   cbinv RecInv(offsets, prevCommit, finalCommit, w)
+//@   assigns offsets, prevCommit, finalCommit, w.writer.indexStart, offsets[len(offsets):cap(offsets)]
+//@   ensures result0 && result1 == nil
+
+//@ -- crcOK(c): the CRC stored in commit frame c equals the CRC-32C of the file
+//@ -- bytes from c.crcStart up to the commit frame (README "Recovery").
+//@ predicate crcOK(w, c) = crc(0, w.wf.data, int(c.crcStart), int(c.offset)) == c.fh.crc
+
+//@ func (*Writer).recoverTail
+//@   props C01 C02 C03 C11
+//@   requires w.wf != nil && w.wf.size <= 0xffffffff
+//@   requires w.info.BaseIndex >= 1 && w.info.BaseIndex <= 0x7fffffff00000000
+//@   requires w.writer.indexStart == 0 && w.commitIdx == 0 && len(w.writer.commitBuf) == 0 && w.writer.crc == 0 && w.writer.writeOffset == 0
+//@   assigns w.writer.writeOffset, w.writer.commitBuf, w.writer.crc, w.writer.indexStart, w.offsets, w.commitIdx, g_scanLast, g_scanSize,
+//@      w.writer.commitBuf[0:cap(w.writer.commitBuf)]
+//@   alloc_bound[C11.alloc-bound] ite(int(w.wf.size) < 32768, 32768, int(w.wf.size))
+//@   ensures[C02.choice] result == nil ==> (w.writer.writeOffset == 0 && len(av(w.offsets)) == 0)
+//@      || (finalCommit != nil && w.writer.writeOffset == uint32(finalCommit.offset + 8) && len(av(w.offsets)) == finalCommit.offsetsLen)
+//@      || (finalCommit != nil && prevCommit != nil && w.writer.writeOffset == uint32(prevCommit.offset + 8) && len(av(w.offsets)) == prevCommit.offsetsLen)
+//@   ensures[C02.validated] result == nil && finalCommit != nil && w.writer.writeOffset == uint32(finalCommit.offset + 8) ==> crcOK(w, finalCommit)
+//@   ensures[C02.validated-prev] result == nil && finalCommit != nil && prevCommit != nil && w.writer.writeOffset == uint32(prevCommit.offset + 8) ==> crcOK(w, prevCommit)
+//@   ensures[C01.keep-synced] result == nil && finalCommit != nil && crcOK(w, finalCommit) ==> w.writer.writeOffset == uint32(finalCommit.offset + 8)
+//@   ensures[C03.seal-flag] result == nil && w.writer.indexStart > 0 ==> w.writer.indexStart < uint64(w.writer.writeOffset)
+//@   ensures[C11.header] result == nil && w.writer.writeOffset != 0 ==> readInfo.ID == w.info.ID && readInfo.BaseIndex == w.info.BaseIndex && readInfo.Codec == w.info.Codec
+//@   ensures[C02.commitidx] result == nil ==> w.commitIdx == ite(len(av(w.offsets)) > 0, w.info.BaseIndex + uint64(len(av(w.offsets))) - 1, 0)
+//@   ensures[C01.recovery-readonly] w.wf.dirty == old(w.wf.dirty) && unchanged(w.wf.data, 0, int(w.wf.size))
+//@   ensures result == nil ==> WInv(w)
